@@ -160,6 +160,10 @@ static int kwajd_read_headers(struct mspack_system *sys,
     unsigned char buf[16];
     int i;
 
+    /* kwajd_close() frees these, also when reading the headers fails early */
+    hdr->filename = NULL;
+    hdr->extra    = NULL;
+
     /* read in the header */
     if (sys->read(fh, &buf[0], kwajh_SIZEOF) != kwajh_SIZEOF) {
         return MSPACK_ERR_READ;
